@@ -2,6 +2,8 @@
 package schd
 
 import (
+	"bytes"
+	"context"
 	"encoding/json"
 	"fmt"
 	"os"
@@ -59,10 +61,18 @@ func Budget(tier string) *run.Deadline {
 	return run.NewDeadline(400 * time.Second)
 }
 
+// delay waits on a virtual timer of d under ctx: the wait ends when the timer fires or ctx is done, whichever is first.
+func delay(ctx context.Context, d time.Duration) error {
+	c, cancel := zvsync.WithTimeout(ctx, d)
+	defer cancel()
+	zvsync.WaitCancel(c)
+	return ctx.Err()
+}
+
 // NewStore makes a store double whose Add/Get are scheduling points.
 func NewStore() *store.Store {
 	st := store.New()
-	st.Hooks = &store.Hooks{Access: zvsync.Access, Acquire: zvsync.RaceAcquire, Release: zvsync.RaceRelease, WaitCancel: zvsync.WaitCancel}
+	st.Hooks = &store.Hooks{Access: zvsync.Access, Acquire: zvsync.RaceAcquire, Release: zvsync.RaceRelease, WaitCancel: zvsync.WaitCancel, Delay: delay}
 	return st
 }
 
@@ -399,7 +409,23 @@ func RunCheck(p *run.Part, id, tier string, raceLog string, journalDir string) {
 			if raceLog != "" {
 				cmd.Env = append(cmd.Env, fmt.Sprintf("GORACE=halt_on_error=0 exitcode=0 log_path=%s-job%d", raceLog, k))
 			}
-			outb, err := cmd.CombinedOutput()
+			// a worker stops by itself shortly after the deadline; one that is still there four minutes later is
+			// blocked in an operation the scheduler does not intercept (code under test that waits on a primitive
+			// the instrumentation does not model): it is killed and reported as died, never waited for
+			stalled := false
+			var obuf bytes.Buffer
+			cmd.Stdout, cmd.Stderr = &obuf, &obuf
+			err := cmd.Start()
+			if err == nil {
+				grace := time.Until(time.Unix(deadline, 0)) + 4*time.Minute
+				tm := time.AfterFunc(grace, func() { stalled = true; cmd.Process.Kill() })
+				err = cmd.Wait()
+				tm.Stop()
+			}
+			outb := obuf.Bytes()
+			if stalled {
+				err = fmt.Errorf("stalled: still running four minutes after its deadline (blocked outside the scheduler's view), killed; %v", err)
+			}
 			if err != nil {
 				died[k] = fmt.Sprintf("worker %d (%s%s shard %d ... %d jobs): %v\n%s", k, specs[g[0].spec].Sc.Name, specs[g[0].spec].Name, g[0].shard, len(g), err, tail(string(outb), 6000))
 			}
